@@ -10,6 +10,7 @@ observable and checked against generic invariants.
 from .. import flowcheck
 from .. import floworacle as fo
 from .. import floworacle_r3 as f3
+from .. import floworacle_r5 as f5
 
 LEAN_MODULES = ['Props.C04', 'Props.Agreement', 'Props.Translated_C04']
 TRUSTED = ['harness/flow_impl.py (yaml renderer, canonicaliser, virtual clock, scripted random.uniform)',
@@ -82,6 +83,39 @@ def truth_table(env, res):
                 res.violation(case, f'{form} decorator value {v!r} evaluates {got}, the truth rule says {want}',
                               signature={'family': 'c04-truth', 'form': form, 'value': repr(v)})
 
+def value_form_table(env, res):
+    """Every decorator value FORM of harness/floworacle_r5.value_forms (literal scalars / texts, '{expr}' to every kind,
+    texts built by formatting, !py / !sic / !jsonify, container literals with members that must not be looked at)
+    straight through Context.get_formatted_as_type(.., out_type=bool): model `fmtAsBool` vs implementation, and the
+    monitor: the truth rule's verdict, no error."""
+    from .. import common
+    from ..common import dec
+    from pypyr.context import Context
+    drv = env.driver
+    for form, val, ctx, truth, impl_only, _ in f5.value_forms():
+        if impl_only:
+            continue
+        ctxw = {'d': [[k, f5.W(v)] for k, v in ctx.items()]}
+        case = {'form': form, 'v': val, 'ctx': ctxw}
+        try:
+            impl = {'ok': Context(dec(ctxw)).get_formatted_as_type(dec(val), out_type=bool)}
+        except Exception as e:
+            impl = {'err': type(e).__name__}
+        try:
+            m = drv.ask('fmt.asbool', ctx=ctxw, v=val)
+        except common.Reject:
+            res.count('forms:rejected')
+            continue
+        model = {'ok': m['ok']} if 'ok' in m else {'err': m['err']['name'].rpartition('.')[2]}
+        res.case(case)
+        res.count('forms:' + form.split('->')[0])
+        if impl != model:
+            res.mismatch(case, model, impl)
+        if impl != {'ok': truth}:
+            res.violation(case, f'decorator value {val!r} (form {form}, context {ctx!r}) evaluates to {impl}, the truth rule '
+                                f'says {truth}', signature={'family': 'c04-value-form-table', 'form': form, 'value': repr(val)})
+
+
 def extract(env):
     """Translate pypyr/utils/types.py of the tree under test into Lean definitions (harness/translate.py ->
     lean/Generated/Translated*.lean, ast only); Props/Translated_C04.lean proves them equal to the hand-written
@@ -96,12 +130,14 @@ def extract(env):
 
 def run(env, res):
     truth_table(env, res)
+    value_form_table(env, res)
     res.rule = ('directed families (expectation from the property text) first, then seeded random pipelines '
                 '(1-3 pipelines, 1-4 groups, 0-4 steps per group, decorators with p~0.25 each, foreach items incl. '
                 'None/0/\'\'/False/[]/{}, 12% with a malformed group body or sequence item, 35% written in another '
                 'yaml layout: flow style, JSON, first step on line 1, other indentation, single-quoted / plain / block scalars, anchors + aliases, merge keys; every 4th case runs with the root logger at DEBUG, every 8th at INFO, every 8th at NOTIFY - the log level is an input); a case is '
                 'non-trivial when the model accepts it and it terminates; distinct by canonical program text')
-    directed = [('c04', fo.c04_family, env.n(200, 100000)), ('c04-in', fo.c04_in_family, env.n(87, 100000)),
+    directed = [('c04-value-forms', f5.c04_value_forms_family, env.n(906, 100000)),
+                ('c04', fo.c04_family, env.n(200, 100000)), ('c04-in', fo.c04_in_family, env.n(87, 100000)),
                 ('c04-scalar-styles', f3.c04_styles_family, env.n(140, 100000))]
     flowcheck.run_streams(env, res, directed, env.n(500, 100000), weights={'fail': 5, 'set': 2},
                           random_monitor=flowcheck.monitor_all)
